@@ -175,6 +175,8 @@ def finding_key(spec, a, obs):
     if cls in ("kLeastAbsErrors", "kLeastAbsErrorsCycles", "kMinPathErrorCycles") and obs == "TypeError" \
             and any(isinstance(it, list) for c in spec["cons"] for it in c):
         return "error-models:TypeError:unhashable-constraint-item"
+    if cls == "MinFlowDecomp" and obs == "Exception" and (spec.get("opts") or {}).get("use_min_gen_set_lowerbound"):
+        return "MinFlowDecomp:Exception:negative-flow-with-min-gen-set-lowerbound"
     names1 = [x for x in spec["nodes"] if isinstance(x, str) and len(x) == 1]
     if cyc and spec["origin"] != "node" and obs != "ValueError" and (
             (not a["has_source"] and not st and any(c in "source_" for c in names1)) or
@@ -241,6 +243,7 @@ def applicable(cls, v, spec):
     return True
 
 
+PREPHASE_SENSITIVE = ("neg", "missing", "noncons", "nonstr", "cycle", "selfloop", "nosource", "nosink")
 INPLACE = ("neg", "missing", "noncons", "cycle", "selfloop", "nosource", "nosink", "nonstr")
 
 
@@ -251,6 +254,9 @@ def make_cases(ctx, n_valid, n_pairs):
         for i in range(n_valid):
             rng = ctx.rng("valid:" + cls, i)
             base = ci.gen_valid(rng, cls)
+            vecs = ci.OPTION_VECTORS.get(cls)
+            if vecs:                                   # option vector i of the class (cycled; rotated by the seed)
+                base["opts"] = dict(vecs[(i + ctx.seed) % len(vecs)])
             yield ("valid", cls, i, [], base)
             for name, fn in (("start_only", ci.variant_start_only), ("node_starts", ci.variant_node_starts)):
                 s = copy.deepcopy(base)
@@ -267,8 +273,14 @@ def make_cases(ctx, n_valid, n_pairs):
                 if v == "noncons" and conserving(s):
                     continue
                 yield ("single", cls, i, [v], s)
+                # classes with optional pre-phases in solve() (lower bounds, guessed weights): the input violations under EVERY vector
+                if vecs and len(vecs) > 10 and v in PREPHASE_SENSITIVE and i < 4:
+                    for vec in vecs:
+                        if vec != base.get("opts"):
+                            s2 = copy.deepcopy(s); s2["opts"] = dict(vec)
+                            yield ("single", cls, i, [v], s2)
                 # the same violation made IN PLACE on the graph object with which a valid model was built and solved before
-                if v in INPLACE and i % 3 == 0:
+                if v in INPLACE and i % 4 == 0:
                     yield ("inplace", cls, i, [v], s, base)
         allpairs = list(itertools.combinations(vs, 2))
         for j in range(n_pairs):
@@ -279,6 +291,9 @@ def make_cases(ctx, n_valid, n_pairs):
             if rng.random() < 0.5:
                 v1, v2 = v2, v1
             base = ci.gen_valid(rng, cls)
+            vecs = ci.OPTION_VECTORS.get(cls)
+            if vecs:
+                base["opts"] = dict(vecs[rng.randrange(len(vecs))])
             s = copy.deepcopy(base)
             if not applicable(cls, v1, s) or not ci.VIOL[v1](s, rng):
                 continue
@@ -297,7 +312,7 @@ def run(ctx):
                 "ignore lists, additional starts/ends, edge or node weights; every single violation kind of the class on every valid "
                 "input (graph violations also made IN PLACE on the graph object a valid model was built from before) plus sampled pairs; non-trivial = at least one violation applied or a valid input with constraints / ignore "
                 "list / node weights; distinct by (class, abstract input)")
-    n_valid = ctx.budget(14, 150); n_pairs = ctx.budget(80, 1500)
+    n_valid = ctx.budget(14, 150); n_pairs = ctx.budget(60, 1500)
     cases = []
     for case in make_cases(ctx, n_valid, n_pairs):
         (stream, cls, idx, viols, spec) = case[:5]
@@ -326,7 +341,7 @@ def check_case(ctx, stream, cls, idx, viols, spec, a, req, out, r):
         ctx.report("model driver failed on a request: " + out, {"request": req}, concrete=False); return True
     model_out, model_dom = parts[0], parts[1] == "1"
     obs = observed_outcome(r)
-    canon = [cls, req]
+    canon = [cls, req, sorted((spec.get("opts") or {}).items())]
     nontriv = bool(viols) or bool(spec["cons"] or spec["ign"] or spec["origin"] == "node" or spec["starts"])
     ctx.case(canon, nontrivial=nontriv, sample={"class": cls, "violations": viols, "observed": obs, "model": model_out,
                                                 "in_domain": model_dom, "input": spec_json(spec)})
